@@ -803,3 +803,7 @@ def parse_toml_and_add_line_info(text: str) -> Dict[str, Any]:
             raise TOMLDecodeErrorWithSourceInfo(message, text.count("\n") + 1) from err
 
         raise err
+    except (ValueError, RecursionError) as err:
+        # Not syntax errors as such: a number beyond the interpreter's integer conversion
+        # limit, brackets nested more deeply than the parser follows
+        raise TOMLDecodeErrorWithSourceInfo(str(err), 1) from err
